@@ -1,4 +1,5 @@
 import MuscleModel.Reflector.RouteProofs
+import MuscleModel.Reflector.OrderProofs
 import MuscleModel.Reflector.TravProofsCouple
 import MuscleModel.Reflector.Handlers
 
@@ -466,5 +467,92 @@ example : routePairs [[120], [121], [122]] [none, some ⟨0, 1⟩] none =
     behind differs observably from the coherent route -/
 example : pmNumFilters (buildRoute [[120], [121]] (some [some ⟨0, 1⟩])) = 2 ∧
     pmNumFilters (buildRoute [[120], [121]] none) = 0 := by decide
+
+end Muscle.Props.C05
+
+/-!
+# C05, third part — client-to-client Messages arrive in the order they were sent (FIFO per pair)
+
+Lemmas: `Reflector/OrderProofs.lean` (prefix `od_`).  `msgText a tag` = the line a receiver sees for `send tag …` of session `a`;
+`OdEv` / `odRunEvs`: histories of events `cmd sid c | push | attach slot host | detach sid`.  Any server state; no hypothesis on
+the keys, the routes or the tree (once-per-receiver is NOT needed: inboxes are append-only, `inbox_append_only` of C07).
+-/
+
+namespace Muscle.Props.C05
+open Muscle Muscle.Reflector Muscle.Eng.SrvEngine
+
+/-- Everything a `send` appends to anybody's inbox is a copy of its own text. -/
+theorem send_appends_only_its_text (sv : Server) (a tag : Nat) (keys : List Bytes) (b : Nat) (t : Sess)
+    (ht : sv.sess? b = some t) :
+    ∃ t' extra, (runCmd sv a (.send tag keys)).sess? b = some t' ∧ t'.inbox = t.inbox ++ extra ∧
+      ∀ x ∈ extra, x = msgText a tag := by
+  obtain ⟨t', h1, _, e, h3, h4⟩ := od_lookup (show InboxApp (· = msgText a tag) sv (runCmd sv a (.send tag keys)) from od_sendMsg_text sv a tag keys) b t ht
+  exact ⟨t', e, h1, h3, h4⟩
+
+/-- **FIFO per pair.**  Session `a` sends `send tag1 keys1`, then anything happens (commands of any sessions, pushes,
+    attaches, departures of sessions other than `b`), then `a` sends `send tag2 keys2`.  If both sends put something into
+    `b`'s inbox (`t1.inbox ≠ t0.inbox`, `t3.inbox ≠ t2.inbox`), then just before the second send `b`'s inbox was its original
+    inbox followed by the first Message and more, and the second Message comes after ALL of that. -/
+theorem fifo_per_pair (sv : Server) (a b tag1 tag2 : Nat) (keys1 keys2 : List Bytes) (mid : List OdEv)
+    (hmid : ∀ e ∈ mid, e ≠ .detach b) (t0 t1 t2 t3 : Sess)
+    (h0 : sv.sess? b = some t0)
+    (h1 : (runCmd sv a (.send tag1 keys1)).sess? b = some t1)
+    (h2 : (odRunEvs (runCmd sv a (.send tag1 keys1)) mid).sess? b = some t2)
+    (h3 : (runCmd (odRunEvs (runCmd sv a (.send tag1 keys1)) mid) a (.send tag2 keys2)).sess? b = some t3)
+    (hd1 : t1.inbox ≠ t0.inbox) (hd2 : t3.inbox ≠ t2.inbox) :
+    ∃ q r, t2.inbox = t0.inbox ++ msgText a tag1 :: q ∧ t3.inbox = t2.inbox ++ msgText a tag2 :: r := by
+  obtain ⟨t1', g1, _, e1, i1, p1⟩ := od_lookup (show InboxApp (· = msgText a tag1) sv (runCmd sv a (.send tag1 keys1)) from od_sendMsg_text sv a tag1 keys1) b t0 h0
+  rw [h1] at g1; cases g1
+  obtain ⟨t2', g2, _, e2, i2, _⟩ := od_lookup_evs mid b hmid _ t1 h1
+  rw [h2] at g2; cases g2
+  obtain ⟨t3', g3, _, e3, i3, p3⟩ := od_lookup (show InboxApp (· = msgText a tag2) _ (runCmd _ a (.send tag2 keys2)) from od_sendMsg_text _ a tag2 keys2) b t2 h2
+  rw [h3] at g3; cases g3
+  cases e1 with
+  | nil => exact absurd (by simpa using i1) hd1
+  | cons m1 e1' =>
+    cases e3 with
+    | nil => exact absurd (by simpa using i3) hd2
+    | cons m3 e3' =>
+      have hm1 : m1 = msgText a tag1 := p1 m1 (List.mem_cons_self ..)
+      have hm3 : m3 = msgText a tag2 := p3 m3 (List.mem_cons_self ..)
+      subst hm1; subst hm3
+      refine ⟨e1' ++ e2, e3', ?_, i3⟩
+      rw [i2, i1]; simp
+
+/-- **FIFO, first occurrences.**  If moreover the second text was not in `b`'s inbox before it was sent (a fresh tag), the
+    first occurrence of the first Message in `b`'s final inbox precedes the first occurrence of the second. -/
+theorem fifo_first_occurrences (sv : Server) (a b tag1 tag2 : Nat) (keys1 keys2 : List Bytes) (mid : List OdEv)
+    (hmid : ∀ e ∈ mid, e ≠ .detach b) (t0 t1 t2 t3 : Sess)
+    (h0 : sv.sess? b = some t0)
+    (h1 : (runCmd sv a (.send tag1 keys1)).sess? b = some t1)
+    (h2 : (odRunEvs (runCmd sv a (.send tag1 keys1)) mid).sess? b = some t2)
+    (h3 : (runCmd (odRunEvs (runCmd sv a (.send tag1 keys1)) mid) a (.send tag2 keys2)).sess? b = some t3)
+    (hd1 : t1.inbox ≠ t0.inbox) (hd2 : t3.inbox ≠ t2.inbox) (hfresh : msgText a tag2 ∉ t2.inbox) :
+    t3.inbox.idxOf (msgText a tag1) < t3.inbox.idxOf (msgText a tag2) ∧
+    t3.inbox.idxOf (msgText a tag2) < t3.inbox.length := by
+  obtain ⟨q, r, e2, e3⟩ := fifo_per_pair sv a b tag1 tag2 keys1 keys2 mid hmid t0 t1 t2 t3 h0 h1 h2 h3 hd1 hd2
+  have hm1 : msgText a tag1 ∈ t2.inbox := by rw [e2]; simp
+  constructor
+  · rw [e3]; exact od_idxOf_lt hm1 hfresh
+  · apply List.idxOf_lt_length_of_mem
+    rw [e3]; simp
+
+/-! Non-vacuity: two sessions; session 0 broadcasts tag 7, session 1 pings, pending updates are pushed, session 0 broadcasts
+    tag 8.  Both broadcasts reach session 1 (its inbox changes each time), tag 8 is fresh, and the order is as sent. -/
+def exFifoSv0 : Server := (attach (attach {} 0 [104]).1 1 [104]).1
+def exFifoMid : List OdEv := [.cmd 1 (.ping 3), .push]
+def exFifoSv1 : Server := runCmd exFifoSv0 0 (.send 7 [])
+def exFifoSv2 : Server := odRunEvs exFifoSv1 exFifoMid
+def exFifoSv3 : Server := runCmd exFifoSv2 0 (.send 8 [])
+
+example : ∀ e ∈ exFifoMid, e ≠ OdEv.detach 1 := by
+  intro e he
+  simp only [exFifoMid, List.mem_cons, List.not_mem_nil, or_false] at he
+  rcases he with rfl | rfl <;> exact fun h => OdEv.noConfusion h
+example : (exFifoSv0.sess? 1).map (·.inbox) = some [] ∧
+    (exFifoSv1.sess? 1).map (·.inbox) = some [msgText 0 7] ∧
+    (exFifoSv2.sess? 1).map (·.inbox) = some [msgText 0 7, "PONG 3"] ∧
+    (exFifoSv3.sess? 1).map (·.inbox) = some [msgText 0 7, "PONG 3", msgText 0 8] := by decide
+example : msgText 0 8 ∉ [msgText 0 7, "PONG 3"] := by decide
 
 end Muscle.Props.C05
